@@ -10,7 +10,11 @@ requester sharing only the cache directory and the lock directory.  See DESIGN.m
 """
 import collections
 import contextlib
+import json
 import os
+import random
+import subprocess
+import sys
 import queue as real_queue
 import shutil
 import tempfile
@@ -41,7 +45,14 @@ RULE = ('A case = configuration (thread / multi-process deployment; file cache o
         '(ii) Hypothesis (sparse preemption lists, shrunk towards no preemption). A case is non-trivial when at least '
         'two requesters found a tile of the same (cache, meta tile) missing in their check before taking the lock, i.e. '
         'the second one checked before the first one had stored (they overlap inside the check...store window); '
-        'distinct = distinct (configuration, decision list).')
+        'distinct = distinct (configuration, decision list). (iii) Cross-process sub-check with REAL interpreter '
+        'processes started with different PYTHONHASHSEED values: for a handful of seed-derived (cache backend / file '
+        'layout, meta-tiling options, tile coordinate, dimension values) the lock file path that TileManager.lock() uses, '
+        'the lock_cache_id and the file-cache tile location must be identical in all processes and in the harness '
+        'process; and for three configurations two such processes sharing cache and lock directory request the same '
+        'uncached tile / meta tile at the same time (file barrier: the fetching process waits inside get_map until the '
+        'other one has made its cache check) against a counting upstream - the upstream must be asked once; that case is '
+        'non-trivial when both processes found the tile missing.')
 ASSUMPTIONS = [
     'schedule granularity = cache reads / cache writes / one lock attempt / unlock / upstream call (property wording); code '
     'between two such calls is atomic; one try-lock attempt (open+flock+inode check) and the unlock (remove) are atomic '
@@ -64,6 +75,8 @@ ASSUMPTIONS = [
     'without any concurrency) is not open; it is judged like plain bulk_meta_tiles (one upstream call per tile); meta_buffer stays '
     'below the tile size',
     'tile sets handed to load_tile_coords are full rectangles without duplicates, all of one level (what TMS/WMTS/WMS callers pass)',
+    'cross-process sub-check: real time and real FileLock polling; a verdict is only "asked more than once" / "names differ", '
+    'which no timing can produce on a correct tree; a pair of processes that did not overlap is counted inconclusive',
     'liveness is checked as: no deadlock under the scheduler (a run that exceeds the step bound is inconclusive)',
     'threads started by the code under test (concurrent_tile_creators=2: mapproxy.util.async_.ThreadPool workers) are adopted by '
     'the scheduler; their task/result queues are replaced by scheduler-aware queues with the same interface',
@@ -76,6 +89,7 @@ SRS = 'EPSG:3857'
 EPS = 3
 MAX_STEPS = 4000
 SIG_C04_BULK_MIN = 'C04/exception/InvalidSourceQuery/bulk-minimized'
+SIG_SQLITE_INIT = 'C08/cross-process/response/raised/OperationalError/no-such-table'
 SIG_RACE = 'C08/response/no-image/cached-between-load-and-is_cached'
 
 _G = {}
@@ -1252,7 +1266,350 @@ def hyp_shard(shard, nshards, seed, tier):
     return stats
 
 
+# ------------------------------------------------------------------------------------------------
+# (iii) cross-process sub-check: real interpreter processes with different hash seeds
+
+XPROC_SEEDS = ['1', '2', 'random']
+FILE_LAYOUTS = ['tc', 'tms', 'mp', 'quadkey', 'arcgis', 'reverse_tms']
+CHILD_CODE = ('import sys; sys.path.insert(0, %r); from vcheck.props import c08_concurrent as m; m.child_main()'
+              % os.path.dirname(os.path.dirname(os.path.dirname(os.path.abspath(__file__)))))
+
+
+class _PlainSource(object):
+    coverage = None
+    res_range = None
+    extent = None
+
+    def __init__(self, supports_meta_tiles, hook=None):
+        self.supports_meta_tiles = supports_meta_tiles
+        self.hook = hook
+
+    def get_map(self, query):
+        from mapproxy.image import ImageSource
+        from PIL import Image
+        env = _env()
+        if self.hook:
+            self.hook(query)
+        arr = env['ground'].render_array(tuple(query.bbox), tuple(query.size), SRS)
+        return ImageSource(Image.fromarray(arr, 'RGB'), size=tuple(query.size), image_opts=env['opts'], cacheable=True)
+
+
+def xproc_manager(spec, base, cache_cls=None, hook=None):
+    """Uninstrumented TileManager for one cross-process spec below the directory `base`."""
+    from mapproxy.cache.tile import TileManager
+    from mapproxy.cache.base import TileLocker
+    env = _env()
+    real, _ = cache_classes('file' if spec['cache'] == 'file' else 'sqlite')
+    cls = cache_cls(real) if cache_cls else real
+    cdir = os.path.join(base, 'cache')
+    if spec['cache'] == 'file':
+        cache = cls(cdir, 'png', directory_layout=spec.get('layout', 'tc'), image_opts=env['opts'])
+    else:
+        cache = cls(cdir)
+    locker = TileLocker(os.path.join(base, 'locks'), 60, cache.lock_cache_id)
+    mgr = TileManager(env['grid'], cache, [_PlainSource(spec['source'] == 'wms', hook)], 'png', locker=locker,
+                      image_opts=env['opts'], request_format='png', meta_size=list(spec['meta_size']),
+                      meta_buffer=int(spec['meta_buffer']), minimize_meta_requests=bool(spec.get('minimize')),
+                      bulk_meta_tiles=bool(spec.get('bulk')), identifier='c08_x')
+    return mgr, cache
+
+
+def xproc_names(spec, base):
+    """What this interpreter computes for one spec: lock file TileManager.lock() would use, cache id, tile location."""
+    from mapproxy.cache.tile import Tile
+    mgr, cache = xproc_manager(spec, base)
+    coord = tuple(spec['coord'])
+    lk = mgr.lock(Tile(coord))
+    out = {'lock_file': getattr(lk, 'lock_file', repr(type(lk))), 'lock_cache_id': cache.lock_cache_id}
+    if spec['cache'] == 'file':
+        out['tile_location'] = cache.tile_location(Tile(coord), dimensions=spec.get('dimensions') or None)
+    lk = None
+    return out
+
+
+def child_main():
+    """Entry point of the sub-processes (python -c CHILD_CODE; JSON job on stdin, JSON answer as last stdout line)."""
+    job = json.load(sys.stdin)
+    if job['mode'] == 'names':
+        out = [xproc_names(spec, job['base']) for spec in job['specs']]
+    else:
+        out = child_fetch(job)
+    sys.stdout.write('\n' + json.dumps(out) + '\n')
+    sys.stdout.flush()
+
+
+def _touch(path):
+    with open(path, 'a'):
+        pass
+
+
+def _wait_for(paths, timeout):
+    t0 = real_time.time()
+    while not all(os.path.exists(q) for q in paths):
+        if real_time.time() - t0 > timeout:
+            return False
+        real_time.sleep(0.005)
+    return True
+
+
+def child_fetch(job):
+    from mapproxy.config import local_base_config
+    spec, base, me, other = job['spec'], job['base'], job['me'], job['other']
+    sync = os.path.join(base, 'sync')
+
+    def hook(query):
+        fd = os.open(os.path.join(sync, 'calls'), os.O_WRONLY | os.O_APPEND | os.O_CREAT, 0o644)
+        try:
+            os.write(fd, (json.dumps({'proc': me, 'bbox': [float(v) for v in query.bbox]}) + '\n').encode())
+        finally:
+            os.close(fd)
+        # stay "in the upstream call" until the other process has made its cache check (or has finished)
+        _wait_for([os.path.join(sync, 'checked-%d' % other)], 20.0) or _touch(os.path.join(sync, 'gave-up-%d' % me))
+
+    def cache_cls(real):
+        class Marking(real):
+            def is_cached(self, tile, dimensions=None):
+                r = real.is_cached(self, tile, dimensions=dimensions)
+                if not r:
+                    _touch(os.path.join(sync, 'missed-%d' % me))
+                _touch(os.path.join(sync, 'checked-%d' % me))
+                return r
+        return Marking
+
+    mgr, cache = xproc_manager(spec, base, cache_cls=cache_cls, hook=hook)
+    coords = [tuple(c) for c in job['coords']]
+    if job.get('stall_init') and me == 0:
+        # hold this process right after the sqlite3.connect() that _initialize_mbtile makes for a new level file until the
+        # other process has answered its request (or 3 s have passed: it may legitimately wait for our init lock)
+        import sqlite3 as real_sqlite3
+        from mapproxy.cache import mbtiles as mmb
+        state = {'init': 0}
+        orig_init = mmb.MBTilesCache._initialize_mbtile
+
+        def init(self_):
+            state['init'] += 1
+            try:
+                return orig_init(self_)
+            finally:
+                state['init'] -= 1
+
+        def connect(*a, **kw):
+            db = real_sqlite3.connect(*a, **kw)
+            if state['init'] and not os.path.exists(os.path.join(sync, 'init-connected-0')):
+                _touch(os.path.join(sync, 'init-connected-0'))
+                _wait_for([os.path.join(sync, 'finished-1')], 3.0)
+            return db
+        mmb.MBTilesCache._initialize_mbtile = init
+        mmb.sqlite3 = _Namespace(real_sqlite3, connect=connect)
+    _touch(os.path.join(sync, 'ready-%d' % me))
+    if not _wait_for([os.path.join(sync, 'ready-%d' % other)], 60.0):
+        return {'status': 'partner-not-ready'}
+    if job.get('stall_init') and me == 1 and not _wait_for([os.path.join(sync, 'init-connected-0')], 30.0):
+        return {'status': 'partner-not-ready'}
+    try:
+        with local_base_config(_env()['conf']):
+            try:
+                tiles = mgr.load_tile_coords(list(coords))
+            except Exception as e:
+                if raised_in_harness(e):
+                    raise
+                return {'status': 'raised', 'exc': type(e).__name__, 'msg': str(e)[:300], 'tb': traceback.format_exc()[-1500:]}
+            bad = [list(t.coord) for t in tiles if t.source is None or not matches(decode(t.source), t.coord)]
+            mgr.cleanup()
+    finally:
+        _touch(os.path.join(sync, 'checked-%d' % me))
+        _touch(os.path.join(sync, 'finished-%d' % me))
+    return {'status': 'ok', 'bad': bad}
+
+
+def _spawn(job, hashseed):
+    env = dict(os.environ)
+    env['PYTHONHASHSEED'] = hashseed
+    p = subprocess.Popen([sys.executable, '-c', CHILD_CODE], stdin=subprocess.PIPE, stdout=subprocess.PIPE,
+                         stderr=subprocess.PIPE, env=env, cwd=os.path.dirname(os.path.dirname(os.path.dirname(
+                             os.path.abspath(__file__)))))
+    p.stdin.write(json.dumps(job).encode())
+    p.stdin.close()
+    p.stdin = None
+    return p
+
+
+def _collect(p, what):
+    try:
+        out, err = p.communicate(timeout=900)
+    except subprocess.TimeoutExpired:
+        p.kill()
+        p.communicate()
+        raise core.HarnessError('cross-process child (%s) did not finish' % what)
+    rc = p.returncode
+    if rc != 0:
+        raise core.HarnessError('cross-process child (%s) failed with exit code %r:\n%s' % (what, rc, err.decode()[-3000:]))
+    try:
+        return json.loads(out.decode().strip().splitlines()[-1])
+    except Exception:
+        raise core.HarnessError('cross-process child (%s) printed no answer: %r' % (what, out[-500:]))
+
+
+def xproc_specs(tier, seed):
+    rnd = random.Random(core.derive_seed(seed, 'c08-xproc'))
+    metas = [('wms', [1, 1], 0, False, False), ('wms', [2, 2], 0, False, False), ('wms', [2, 2], 3, False, False),
+             ('wms', [3, 2], 8, True, False), ('wms', [2, 3], 0, True, False), ('tiled', [2, 2], 0, False, True),
+             ('tiled', [1, 1], 0, False, False)]
+    specs = []
+    for i in range(14 if tier == 'quick' else 60):
+        source, ms, mb, mini, bulk = metas[i % len(metas)] if i < len(metas) else rnd.choice(metas)
+        z = rnd.choice([0, 1, 2, 2])
+        n = grid_n(z)
+        spec = {'cache': 'file' if i % 4 != 3 else 'sqlite', 'layout': FILE_LAYOUTS[i % len(FILE_LAYOUTS)],
+                'source': source, 'meta_size': ms, 'meta_buffer': mb, 'minimize': mini, 'bulk': bulk,
+                'coord': [rnd.randrange(n), rnd.randrange(n), z],
+                'dimensions': rnd.choice([None, None, {'time': '2024-0%d-01' % rnd.randint(1, 9)},
+                                          {'time': 'a b', 'elevation': str(rnd.randint(0, 999))}])}
+        specs.append(spec)
+    return specs
+
+
+XPROC_FETCH = [
+    ('single-tile/file', {'cache': 'file', 'source': 'wms', 'meta_size': [1, 1], 'meta_buffer': 0}, [[(3, 2, 2)], [(3, 2, 2)]]),
+    ('meta-2x2-buffer3-different-tiles/file', {'cache': 'file', 'source': 'wms', 'meta_size': [2, 2], 'meta_buffer': 3},
+     [[(2, 2, 2)], [(3, 3, 2)]]),
+    ('meta-2x2-same-tile/sqlite', {'cache': 'sqlite', 'source': 'wms', 'meta_size': [2, 2], 'meta_buffer': 0},
+     [[(1, 1, 1)], [(1, 1, 1)]]),
+]
+
+
+NAMES_BASE = os.path.join(tempfile.gettempdir(), 'c08-xproc-names-not-created')
+
+
+def xproc_names_start(specs, hashseeds):
+    return [(hs, _spawn({'mode': 'names', 'base': NAMES_BASE, 'specs': specs}, hs)) for hs in hashseeds]
+
+
+def xproc_names_check(specs, hashseeds, stats, procs=None):
+    """Returns a Violation or None."""
+    base = NAMES_BASE
+    procs = procs or xproc_names_start(specs, hashseeds)
+    answers = [('harness', [xproc_names(spec, base) for spec in specs])]
+    for hs, p in procs:
+        answers.append(('PYTHONHASHSEED=' + hs, _collect(p, 'names ' + hs)))
+    first = None
+    for i, spec in enumerate(specs):
+        classes = ['src:xproc-names', 'xproc-cache:' + (spec['cache'] if spec['cache'] != 'file' else 'file-' + spec['layout']),
+                   'xproc-dimensions:' + ('yes' if spec['dimensions'] else 'no')]
+        stats.case(key=('xproc-names', spec), nontrivial=False, classes=classes)
+        for key in ('lock_file', 'lock_cache_id', 'tile_location'):
+            vals = [(who, a[i].get(key)) for who, a in answers]
+            if len(set(v for _, v in vals)) > 1 and first is None:
+                first = core.Violation(
+                    'C08/cross-process/%s-differs' % key.replace('_', '-'),
+                    'independently started processes do not agree on the %s of tile %r (%s cache, meta %r): %s - they '
+                    'cannot exclude each other / find each other\'s tiles, so every process asks the upstream itself'
+                    % (key.replace('_', ' '), tuple(spec['coord']), spec['cache'], spec['meta_size'],
+                       '; '.join('%s: %s' % (w, os.path.basename(str(v)) if key != 'tile_location' else v) for w, v in vals)),
+                    {'xproc': 'names', 'specs': [spec], 'hashseeds': list(hashseeds)})
+    return first
+
+
+def xproc_fetch_check(name, spec, coords, hashseeds, stats, stall_init=False, exclude=frozenset()):
+    return xproc_fetch_finish(xproc_fetch_start(name, spec, coords, hashseeds, stats, stall_init, exclude), stats)
+
+
+def xproc_fetch_start(name, spec, coords, hashseeds, stats, stall_init=False, exclude=frozenset()):
+    spec = dict(spec, minimize=False, bulk=False)
+    base = tempfile.mkdtemp(prefix='c08-xproc-')
+    try:
+        os.makedirs(os.path.join(base, 'sync'))
+        if spec['cache'] == 'sqlite' and SIG_SQLITE_INIT in exclude and not stall_init:
+            # open known finding: a process that meets a level file which another process is just initialising fails with
+            # "no such table"; start the processes on initialised level files so that the search continues behind it
+            plain = cache_classes('sqlite')[0](os.path.join(base, 'cache'))
+            for z in sorted(set(c[2] for cs in coords for c in cs)):
+                plain._get_level(z)
+            plain.cleanup()
+            stats.excluded['sqlite level files initialised before the processes start (known ' + SIG_SQLITE_INIT + ')'] += 1
+        procs = []
+        for me in (0, 1):
+            job = {'mode': 'fetch', 'base': base, 'spec': spec, 'me': me, 'other': 1 - me, 'coords': coords[me],
+                   'stall_init': bool(stall_init)}
+            procs.append(_spawn(job, hashseeds[me]))
+    except BaseException:
+        shutil.rmtree(base, ignore_errors=True)
+        raise
+    return (name, coords, hashseeds, stall_init, base, procs)
+
+
+def xproc_fetch_finish(ctx, stats):
+    name, coords, hashseeds, stall_init, base, procs = ctx
+    try:
+        res = [_collect(p, 'fetch %s #%d' % (name, i)) for i, p in enumerate(procs)]
+        sync = os.path.join(base, 'sync')
+        calls = []
+        if os.path.exists(os.path.join(sync, 'calls')):
+            with open(os.path.join(sync, 'calls')) as f:
+                calls = [json.loads(line) for line in f if line.strip()]
+        overlap = all(os.path.exists(os.path.join(sync, 'missed-%d' % i)) for i in (0, 1))
+        gave_up = any(os.path.exists(os.path.join(sync, 'gave-up-%d' % i)) for i in (0, 1))
+    finally:
+        shutil.rmtree(base, ignore_errors=True)
+    case = {'xproc': 'fetch', 'name': name, 'hashseeds': list(hashseeds), 'stall_init': bool(stall_init)}
+    for i, r in enumerate(res):
+        if r.get('status') == 'raised':
+            sig = 'C08/cross-process/response/raised/' + r['exc']
+            if r['exc'] == 'OperationalError' and 'no such table' in r['msg']:
+                sig = SIG_SQLITE_INIT
+            stats.case(key=('xproc-fetch', name, tuple(hashseeds), stall_init), nontrivial=True,
+                       classes=['src:xproc-fetch', 'xproc-fetch:' + name, 'xproc-outcome:raised'], sample=case)
+            return core.Violation(sig, 'process %d (PYTHONHASHSEED=%s) of two independently started processes sharing cache '
+                                  'and lock directory got %s: %s for %r [%s]\n%s'
+                                  % (i, hashseeds[i], r['exc'], r['msg'], coords[i], name, r['tb']), case)
+    if any(r.get('status') != 'ok' for r in res) or (gave_up and not stall_init):
+        stats.inconclusive['xproc-fetch-partner-late'] += 1
+        return None
+    stats.case(key=('xproc-fetch', name, tuple(hashseeds)), nontrivial=overlap,
+               classes=['src:xproc-fetch', 'xproc-fetch:' + name, 'xproc-overlap:' + ('yes' if overlap else 'no'),
+                        'xproc-upstream-calls:%d' % len(calls)], sample=case)
+    if not overlap:
+        stats.inconclusive['xproc-fetch-no-overlap'] += 1
+    for i, r in enumerate(res):
+        if r['bad']:
+            return core.Violation('C08/cross-process/response/wrong-or-missing-image',
+                                  'process %d (PYTHONHASHSEED=%s) got wrong or missing images for %r [%s]'
+                                  % (i, hashseeds[i], r['bad'], name), case)
+    if len(calls) > 1:
+        return core.Violation('C08/cross-process/upstream/repeated-fetch',
+                              'two independently started processes (PYTHONHASHSEED=%s / %s) sharing cache and lock directory '
+                              'asked for %r and %r at the same time: the upstream was asked %d times (%r) [%s]'
+                              % (hashseeds[0], hashseeds[1], coords[0], coords[1], len(calls),
+                                 [(c['proc'], c['bbox']) for c in calls], name), case)
+    return None
+
+
+def xproc_run(tier, seed, stats):
+    st_ = core.Stats()
+    excl = exclusions()
+    specs = xproc_specs(tier, seed)
+    # all child processes run at the same time (each pair has its own directories)
+    names = xproc_names_start(specs, XPROC_SEEDS)
+    pairs = []
+    try:
+        for name, spec, coords in XPROC_FETCH:
+            pairs.append(xproc_fetch_start(name, spec, coords, ['1', 'random'], st_, exclude=excl))
+        v = xproc_names_check(specs, XPROC_SEEDS, st_, procs=names)
+        if v is not None:
+            st_.violations.append(v)
+    finally:
+        for ctx in pairs:
+            try:
+                v = xproc_fetch_finish(ctx, st_)
+            finally:
+                shutil.rmtree(ctx[4], ignore_errors=True)
+            if v is not None:
+                st_.violations.append(v)
+    stats.merge(st_)
+
+
 def run(tier, seed, stats):
+    xproc_run(tier, seed, stats)
     ex = core.parallel(dfs_shard, 16, seed, tier)
     stats.merge(ex)
     # exhaustive for the stated preemption bounds unless a run hit the step bound; sub-trees below the entry into the
@@ -1265,6 +1622,15 @@ def run(tier, seed, stats):
 
 
 def replay(case, stats):
+    if case.get('xproc') == 'names':
+        v = xproc_names_check(case['specs'], case['hashseeds'], stats)
+        return [v] if v else []
+    if case.get('xproc') == 'fetch':
+        for name, spec, coords in XPROC_FETCH:
+            if name == case['name']:
+                v = xproc_fetch_check(name, spec, coords, case['hashseeds'], stats, stall_init=case.get('stall_init'))
+                return [v] if v else []
+        raise core.HarnessError('unknown cross-process case %r' % (case,))
     cfg = public_cfg(case['cfg'])
     if not valid_cfg(cfg):
         raise core.HarnessError('invalid configuration in replay case')
